@@ -158,4 +158,5 @@ def check(run):
     import p09 as _p09
     _p09.channel_orientation_rules(run)
     _p09.route_algebra_rules(run)
+    _p09.channel_route_direction_rule(run)
     run.floor('R2', 4)
